@@ -53,12 +53,18 @@ def sublattices(tier, seed):
     # unpadded numbered patterns with more than ten parts: numeric order differs from name order
     unpadded = [{'kind': 'concat', 'sizes': [1] * k, 'scheme': sc, 'how': 'pattern-unpadded', 'start': st}
                 for k in ((11,) if tier == 'quick' else (11, 12, 21)) for sc in SCHEMES for st in (0, 1)]
+    # the SAME output path merged twice in one process with different inputs (first result opened, then
+    # removed): anything remembered per path (metadata, indexes, sizes) must not survive the directory
+    small = [(1,), (2,), (1, 1), (2, 1), (1, 2), (1, 1, 1)] if tier == 'quick' else [t for t in tuples if sum(t) <= 4]
+    remerge = [{'kind': 'remerge', 'first': list(a), 'second': list(b), 'scheme': sc}
+               for a in small for b in small if a != b for sc in ('none', 'interleaved')]
     atuples = [t for t in tuples if len(t) <= (2 if tier == 'quick' else 3) and max(t) <= 2]
     assoc = [{'kind': 'assoc', 'sizes': list(t), 'scheme': s, 'how': 'list'} for t in atuples for s in ('none', 'interleaved')]
     ref = [{'kind': 'refusal', 'rule': r, 'pos': p, 'sizes': [2, 1, 2]} for r in REFUSALS for p in range(3)]
     return [
         {'name': 'concatenation', 'axes': {'sizes': f'{len(tuples)} tuples', 'scheme': SCHEMES, 'how': ['list/names in given order', 'list/names in reverse lexicographic order', 'pattern from 0', 'pattern from 2 with decoys']}, 'cases': concat},
         {'name': 'unpadded-pattern', 'axes': {'parts': [11, 12, 21], 'scheme': SCHEMES, 'start': [0, 1]}, 'cases': unpadded},
+        {'name': 're-merge to the same output path', 'axes': {'first inputs': [list(x) for x in small], 'second inputs': 'same menu, different from the first', 'scheme': ['none', 'interleaved']}, 'cases': remerge},
         {'name': 'associated', 'axes': {'sizes': f'{len(atuples)} tuples', 'scheme': ['none', 'interleaved']}, 'cases': assoc},
         {'name': 'refusals', 'axes': {'rule': REFUSALS, 'pos': [0, 1, 2]}, 'cases': ref},
     ]
@@ -135,10 +141,35 @@ def run_case(case):
                 if mm.read_plain(dp) != want:
                     vio.append(V('merge-consumed-file-outside-range', f'{case}: {dp.name} (below the start of the numbered range) no longer reads {want} at its path'))
             return {'outcome': f'merged:{len(case["sizes"])}', 'nontrivial': len(case['sizes']) >= 2, 'violations': vio}
+        if case['kind'] == 'remerge':
+            return remerge_case(tmp, case)
         return refusal_case(tmp, case)
     finally:
         gc.collect()
         shutil.rmtree(tmp, ignore_errors=True)
+
+
+def remerge_case(tmp, case):
+    from AEIC.trajectories import TrajectoryStore
+
+    out = tmp / 'out.aeic-store'
+    vio = []
+    for rnd, sizes in enumerate((case['first'], case['second'])):
+        paths, _, _, model = mm.build_inputs(tmp, sizes, case['scheme'], names=[f'r{rnd}_{s:03d}.nc' for s in range(len(sizes))], start=100 * rnd)
+        if case['scheme'] != 'none':
+            # identifiers of the two rounds must not coincide either
+            pass
+        try:
+            TrajectoryStore.merge(output_store=out, input_stores=list(paths))
+        except Exception as ex:  # noqa: BLE001
+            vio.append(V('merge-raised', f'{case}: round {rnd}: {type(ex).__name__}: {ex}'))
+            break
+        gc.collect()
+        vio += mm.observe_merged(out, model, where=f'{case} round {rnd}')
+        if vio:
+            break
+        shutil.rmtree(out)
+    return {'outcome': 'remerged', 'nontrivial': True, 'violations': vio}
 
 
 def build_refusal(tmp, rule, pos, sizes):
